@@ -17,8 +17,9 @@ import FsDb.Model.SysSteps
                                     look the key up again: getOwn · getBase with the old content id)
     store.GetKeys                   keysReg · keysOwn · keysBase · keysContent (one record per step)
     transaction.Begin               beginLock (horizon mutex; number drawn and registered) · beginUnlock
-    transaction.Commit / Rollback   commitRun / rollbackRun (registry removal + UpdateTx / DeleteTx +
-                                    hand-over of the delete list: ONE step, see below)
+    transaction.Commit / Rollback   commitDereg / rollbackDereg (txRepo.Delete: the registry entry goes) ·
+                                    commitRun / rollbackRun (UpdateTx / DeleteTx + hand-over of the
+                                    delete list)
     cleaner.DeleteOld               gcHorizon (under the horizon mutex) · gcCollect (core.DeleteOld with
                                     the horizon computed earlier) · gcDelete (one deleteFile per step)
     worker pool                     workTake (one job) · workDelete (one deleteFile per step)
@@ -26,11 +27,11 @@ import FsDb.Model.SysSteps
   Modelling decisions (part of the trusted base, DESIGN §9 C06):
   * a critical section under an exclusive lock is one step; an in-flight content (setContent) lives
     under an id nobody else knows until setStore publishes it, so its id is drawn at setStore;
-  * Commit/Rollback: the registry removal and UpdateTx/DeleteTx are one step here.  In the code the
-    registry entry disappears one critical section earlier; in that window only the collector's
-    horizon can observe the difference (it may be larger than in the model; a larger safe horizon
-    is invisible to every reader, `collectAt_R`).  That window is explored on the real code by the
-    enforced schedules at hook `utx.start`, not covered by the theorem;
+  * Commit/Rollback are two steps, as in the code: `txRepo.Delete` removes the registry entry, then
+    `UpdateTx` / `DeleteTx` run.  In between the transaction is in `closing`: the shared `Sys` keeps
+    its registry record (a ghost: only the owner may name the transaction, and the owner is inside
+    Commit), but `txRepo.Oldest` — the collector's horizon — no longer sees it (`liveReg`), so the
+    collector may take what only that transaction could still see;
   * Begin: drawing the number and registering are one step (both happen under the horizon mutex and
     the entry is read only by the owner afterwards and by the collector under the same mutex);
   * every transaction is used by the goroutine that began it (`owner`), as C06/C15 require.
@@ -61,7 +62,9 @@ inductive Pc
   | keysContent (todo : List Ver) (acc : List Key)
   | beginLock (t : Nat) (lvl : Level)
   | beginUnlock (o : Out)
+  | commitDereg (t : Nat)
   | commitRun (t : Nat)
+  | rollbackDereg (t : Nat)
   | rollbackRun (t : Nat)
   | gcHorizon
   | gcCollect (hz : Nat)
@@ -81,10 +84,11 @@ deriving Repr
 structure St where
   sys    : Sys := {}
   hzLock : Option Nat := none                  -- holder of sequence.horizonM
+  closing : List Nat := []                     -- transactions between txRepo.Delete and UpdateTx / DeleteTx
   busy   : List (Nat × List Ver) := []         -- ghost: deletion jobs in execution, by thread
   owner  : Nat → Option Nat := fun _ => none   -- which goroutine began a transaction
   thr    : Nat → Thread := fun _ => {}
-  lin    : List (Nat × Op × Out) := []         -- ghost: linearization log
+  lin    : List (Nat × EOp × Out) := []        -- ghost: linearization log (+ numbers drawn for nothing)
 
 def St.setThr (σ : St) (i : Nat) (th : Thread) : St :=
   { σ with thr := fun j => if j = i then th else σ.thr j }
@@ -99,7 +103,7 @@ def St.witness (σ : St) (i : Nat) (pc : Pc) (w : Out) : St :=
 /-- a state-changing linearization point: new shared state, the operation and the atomic model's
     answer are appended to the log -/
 def St.linearize (σ : St) (i : Nat) (sys' : Sys) (op : Op) (w : Out) (pc : Pc) : St :=
-  { σ with sys := sys', lin := σ.lin ++ [(i, op, w)],
+  { σ with sys := sys', lin := σ.lin ++ [(i, .op op, w)],
            thr := fun j => if j = i then { σ.thr i with pc := pc, wit := some w, witAt := σ.lin.length + 1 }
                            else σ.thr j }
 
@@ -184,12 +188,28 @@ def step (σ : St) (i : Nat) : Option St :=
       some { σ.linearize i r.1 (.begin t lvl) r.2 (.beginUnlock r.2) with hzLock := some i }
   | .beginUnlock o => some { σ.goto i (.ret o) with hzLock := none }
   -- Commit / Rollback
-  | .commitRun t => let r := s.commit t; some (σ.linearize i r.1 (.commit t) r.2 (.ret r.2))
-  | .rollbackRun t => let r := s.rollback t; some (σ.linearize i r.1 (.rollback t) r.2 (.ret r.2))
+  | .commitDereg t =>
+    if t ≠ mainTx ∧ (s.reg.find? (·.id = t)).isSome then some { σ.goto i (.commitRun t) with closing := t :: σ.closing }
+    else let r := s.commit t; some (σ.linearize i r.1 (.commit t) r.2 (.ret r.2))
+  | .commitRun t =>
+    let r := s.commit t
+    some { σ.linearize i r.1 (.commit t) r.2 (.ret r.2) with closing := σ.closing.filter (· ≠ t) }
+  | .rollbackDereg t =>
+    if t ≠ mainTx ∧ (s.reg.find? (·.id = t)).isSome then some { σ.goto i (.rollbackRun t) with closing := t :: σ.closing }
+    else let r := s.rollback t; some (σ.linearize i r.1 (.rollback t) r.2 (.ret r.2))
+  | .rollbackRun t =>
+    let r := s.rollback t
+    some { σ.linearize i r.1 (.rollback t) r.2 (.ret r.2) with closing := σ.closing.filter (· ≠ t) }
   -- cleaner.DeleteOld
   | .gcHorizon =>
     if σ.hzLock.isSome then none
-    else some (σ.linearize i (gcDraw s) .gc .ok (.gcCollect (gcHz s)))
+    else
+      -- txRepo.Oldest over the registry WITHOUT the transactions inside Commit / Rollback; the log
+      -- gets the collector's entry and the counter's value (a number may have been drawn although
+      -- the specification still has a transaction open)
+      let s' := gcDrawX s σ.closing
+      let σ' := σ.linearize i s' .gc .ok (.gcCollect (gcHzX s σ.closing))
+      some { σ' with lin := σ'.lin ++ [(i, .tick s'.counter, .ok)] }
   | .gcCollect hz =>
     let dels := delsAt s hz
     some { σ.goto i (.gcDelete dels) with sys := collectAt s hz, busy := σ.busy ++ [(i, dels)] }
@@ -210,8 +230,8 @@ def entry : Op → Option Pc
   | .del t k => some (.delGuard t k)
   | .get t k => some (.getReg t k)
   | .keys t => some (.keysReg t)
-  | .commit t => some (.commitRun t)
-  | .rollback t => some (.rollbackRun t)
+  | .commit t => some (.commitDereg t)
+  | .rollback t => some (.rollbackDereg t)
   | .gc => some .gcHorizon
   | .drain => some .workTake
   | .reopen _ => none      -- Close/Open are not concurrent operations
